@@ -24,7 +24,10 @@ class Constant(LeafNode):
         super(Constant, self).__init__()
         self.val = val
 
+        # nodes are told apart by their names: 'inf' and 'nan' are the text of a value, but also identifiers a signal may have
         self.name = str(val)
+        if self.name in ('inf', 'nan'):
+            self.name = '+' + self.name
 
 
     @property
